@@ -8,5 +8,6 @@ CONSTANTS Design = "repaired"
           MaxFaults = 0
           MaxLoggers = 1
           MaxSwitch = 0
+          Slim = FALSE
 INVARIANTS LinesWholeInOrder FileNameRight RotatesAfterCycle SuppressedOnlyWithin RetentionExact ReadHonest NoFaultNoLoss SurvivorsSurvive OldRemoved Recovers
 CHECK_DEADLOCK FALSE
